@@ -230,6 +230,4 @@ func firstLine(s string) string {
 	return s
 }
 
-func cmdCheck(args []string)    { fmt.Println("TODO") }
-func cmdReplay(args []string)   { fmt.Println("TODO") }
 func cmdSelftest(args []string) { fmt.Println("TODO") }
